@@ -145,6 +145,9 @@ func blockReturnsError(b *ssa.BasicBlock, depth int) bool {
 
 func runC16(c *Checker) {
 	w := c.w
+	// a record cut at any byte is completed by a later Flush only if what is pending is still what
+	// was encrypted: the pending slices must not share storage with the receive path (DUPLEX, as C15)
+	ruleDUPLEX(c)
 	// ---- RFULL ----
 	nFull := 0
 	for _, fn := range w.Funcs {
